@@ -71,4 +71,4 @@ def replay(pid, path):
 MANIFEST = dict(engine='tlc-gen+harness+tlc-trace', ref='DESIGN.md section 6 C06',
    technique='TLC enumerates messages and checks framing lemmas on ScpiParser.tla; output bytes and flushes of the real parser validated by TLC (TVParser)',
    text='All messages of 1..3 (quick) / 1..4 (thorough) units over 14 scripted unit kinds, each after three kinds of previous message, are enumerated by TLC; the bytes written and the flush count of the real library are compared by TLC with the declarative framing of the specification (response units joined by single semicolons, items by single commas, terminator and flush iff something responded).',
-   note='Also validated: hook traces of the repository test programs (TVSuite) and random messages of a minimal instrument against the composition Scpi.tla (TVScpi). Trusted: TLC, capture of write/flush callbacks. Units of 1 .. 70 000 items are checked in the counting view of the rule (TVMany: digits, commas, semicolons, terminator, flush). Result item encodings other than int/bool/text/mnemonic/block are covered by C07/C16/C17.')
+   note='Also validated: hook traces of the repository test programs (TVSuite) and random messages of a minimal instrument against the composition Scpi.tla (TVScpi). Trusted: TLC, capture of write/flush callbacks. Units of 1 .. 70 000 items are checked in the counting view of the rule (TVMany: digits, commas, semicolons, terminator, flush). Result item encodings other than int/bool/text/mnemonic/block are covered by C07/C16/C17; the framing of units whose first item comes from a based-integer result function (SCPI_ResultUInt32Base/UInt64Base, base 2/8/16) after another responding unit is NOT yet in the scenario alphabet (seeded change C06-j1 is not detected).')
